@@ -74,7 +74,7 @@ type Store struct {
 	// fault plan
 	fmu         sync.Mutex
 	CommitFault func(proc string, nth int, ops []Event) *Fault // nil => none
-	DelFault    func(proc string, nth int, e Event) string    // "", "err", "cas", "die"
+	DelFault    func(proc string, nth int, e Event) string     // "", "err", "cas", "die"
 	commitN     int
 	delN        int
 	// LogIter makes iterator items part of the trace.
